@@ -90,6 +90,117 @@ func dependsOnField(v ssa.Value, fields map[string]bool, depth int, seen map[ssa
 	return ""
 }
 
+
+// providerRoles: the fields of dependency.Provider by role, discovered from
+// what the exported API methods do (robust to renaming unexported fields).
+type providerRoles struct {
+	inst, fact, defInst, defFact, inj, blocked, stack string
+	scan *ssa.Function // the cycle scan (bool function over the stack, called by Get)
+}
+
+func discoverProviderRoles(c *Ctx) *providerRoles {
+	r := &providerRoles{}
+	mapWrittenBy := func(method string) string {
+		f := c.P.Func(depPkg, "Provider", method)
+		if f == nil {
+			return ""
+		}
+		name := ""
+		eachInstr(f, func(_ *ssa.BasicBlock, _ int, in ssa.Instruction) {
+			if mu, ok := in.(*ssa.MapUpdate); ok {
+				if n, base := fieldLoadName(mu.Map); n != "" && base == ssa.Value(f.Params[0]) {
+					name = n
+				}
+			}
+		})
+		return name
+	}
+	r.inst = mapWrittenBy("Set")
+	r.defInst = mapWrittenBy("SetDefault")
+	r.fact = mapWrittenBy("AddFactory")
+	r.defFact = mapWrittenBy("AddDefaultFactory")
+	if f := c.P.Func(depPkg, "Provider", "AddInjectors"); f != nil {
+		eachInstr(f, func(_ *ssa.BasicBlock, _ int, in ssa.Instruction) {
+			if st, ok := in.(*ssa.Store); ok {
+				if fa, ok := st.Addr.(*ssa.FieldAddr); ok && fa.X == ssa.Value(f.Params[0]) {
+					n := fieldName(fa)
+					r.inj = n[strings.LastIndex(n, ".")+1:]
+				}
+			}
+		})
+	}
+	if f := c.P.Func(depPkg, "Provider", "Block"); f != nil {
+		eachInstr(f, func(_ *ssa.BasicBlock, _ int, in ssa.Instruction) {
+			if st, ok := in.(*ssa.Store); ok {
+				if b, isB := constBool(st.Val); isB && b {
+					if fa, ok := st.Addr.(*ssa.FieldAddr); ok && fa.X == ssa.Value(f.Params[0]) {
+						n := fieldName(fa)
+						r.blocked = n[strings.LastIndex(n, ".")+1:]
+					}
+				}
+			}
+		})
+	}
+	// the resolution stack: a []string field that Get (or a private helper of it) both appends to and re-slices
+	if get := c.P.Func(depPkg, "Provider", "Get"); get != nil {
+		app, sl := map[string]bool{}, map[string]bool{}
+		for _, g := range reachableSamePkg(get, 2) {
+			if g != get && g.Object() != nil && g.Object().Exported() {
+				continue
+			}
+			eachInstr(g, func(_ *ssa.BasicBlock, _ int, in ssa.Instruction) {
+				st, ok := in.(*ssa.Store)
+				if !ok {
+					return
+				}
+				fa, ok := st.Addr.(*ssa.FieldAddr)
+				if !ok || !strings.HasPrefix(fieldName(fa), "dependency.Provider.") {
+					return
+				}
+				n := fieldName(fa)
+				n = n[strings.LastIndex(n, ".")+1:]
+				switch v := st.Val.(type) {
+				case *ssa.Call:
+					if b, ok := v.Call.Value.(*ssa.Builtin); ok && b.Name() == "append" {
+						app[n] = true
+					}
+				case *ssa.Slice:
+					sl[n] = true
+				}
+			})
+		}
+		for n := range app {
+			if sl[n] {
+				r.stack = n
+			}
+		}
+		// the scan: a bool-returning private function called from Get that reads the stack
+		for _, g := range reachableSamePkg(get, 2) {
+			if g == get || g.Signature.Results().Len() != 1 || !isBoolT(g.Signature.Results().At(0).Type()) {
+				continue
+			}
+			reads := false
+			eachInstr(g, func(_ *ssa.BasicBlock, _ int, in ssa.Instruction) {
+				if n, _ := fieldLoadName(valueOf(in)); n != "" && n == r.stack {
+					reads = true
+				}
+			})
+			if reads {
+				r.scan = g
+			}
+		}
+	}
+	if r.inst == "" || r.fact == "" || r.defInst == "" || r.defFact == "" || r.blocked == "" || r.stack == "" {
+		return nil
+	}
+	return r
+}
+
+func valueOf(in ssa.Instruction) ssa.Value {
+	v, _ := in.(ssa.Value)
+	return v
+}
+
 func rulesC10(c *Ctx) {
 	prov := c.P.Named(depPkg, "Provider")
 	get := c.P.Func(depPkg, "Provider", "Get")
@@ -100,6 +211,12 @@ func rulesC10(c *Ctx) {
 		return
 	}
 	facts := factsFor(get)
+	ro := discoverProviderRoles(c)
+	if ro == nil {
+		c.Bad("anchor", "roles of dependency.Provider fields", 0, "cannot discover the instance/factory tables, the frozen flag and the resolution stack from Set/SetDefault/AddFactory/AddDefaultFactory/Block/Get; cannot certify")
+		return
+	}
+	c.Note("provider roles: instances=%s factories=%s defaultInstances=%s defaultFactories=%s frozen=%s stack=%s", ro.inst, ro.fact, ro.defInst, ro.defFact, ro.blocked, ro.stack)
 
 	// ---- R1 resolution stack balanced ----------------------------------------
 	isStackStore := func(in ssa.Instruction) (push, pop bool) {
@@ -108,7 +225,7 @@ func rulesC10(c *Ctx) {
 			return
 		}
 		fa, ok := st.Addr.(*ssa.FieldAddr)
-		if !ok || fieldName(fa) != "dependency.Provider.callstack" {
+		if !ok || fieldName(fa) != "dependency.Provider."+ro.stack {
 			return
 		}
 		switch v := st.Val.(type) {
@@ -145,11 +262,13 @@ func rulesC10(c *Ctx) {
 		return false
 	}
 	pushes := 0
-	eachInstr(get, func(b *ssa.BasicBlock, i int, in ssa.Instruction) {
+	for _, pf := range reachableSamePkg(get, 2) {
+	pf := pf
+	eachInstr(pf, func(b *ssa.BasicBlock, i int, in ssa.Instruction) {
 		if push, _ := isStackStore(in); push {
 			pushes++
-			bad := MustPass(get, in, popEvent)
-			con := fmt.Sprintf("push #%d on the resolution stack in dependency.(*Provider).Get", pushes)
+			bad := MustPass(pf, in, popEvent)
+			con := fmt.Sprintf("push #%d on the resolution stack (resolution path of Get)", pushes)
 			if len(bad) == 0 {
 				c.OK("R1", con, in.Pos(), "popped on every path to every return")
 			} else {
@@ -157,32 +276,31 @@ func rulesC10(c *Ctx) {
 			}
 		}
 	})
-	c.Floor("R1", pushes, 2)
+	}
+	c.Floor("R1", pushes, 1)
 
 	// ---- R2 memoised -----------------------------------------------------------
 	n2 := 0
+	isFactoryValue := func(v ssa.Value) bool {
+		return hasOrigin(Origins(v, FlowOpts{Interproc: 2}), func(o Origin) bool { return o.Kind == "call" && strings.HasPrefix(o.Name, "dynamic#") })
+	}
 	for _, r := range returnsOf(get) {
 		if len(r.Results) != 2 || !isNilConst(resolve(r.Results[1])) {
 			continue
 		}
 		v := resolve(r.Results[0])
-		ex, ok := v.(*ssa.Extract)
-		if !ok {
+		if !isFactoryValue(v) {
 			continue
 		}
-		call, ok := ex.Tuple.(*ssa.Call)
-		if !ok || call.Call.StaticCallee() != nil || call.Call.IsInvoke() {
-			continue // not a factory (dynamic) call
-		}
 		n2++
-		con := fmt.Sprintf("factory result returned at line %d of Get", c.P.Fset.Position(r.Pos()).Line)
+		con := fmt.Sprintf("factory result returned (success return #%d of Get)", n2)
 		stored := false
 		eachInstr(get, func(_ *ssa.BasicBlock, _ int, in ssa.Instruction) {
 			mu, ok := in.(*ssa.MapUpdate)
 			if !ok {
 				return
 			}
-			if n, _ := fieldLoadName(mu.Map); n != "instances" {
+			if n, _ := fieldLoadName(mu.Map); n != ro.inst {
 				return
 			}
 			if sameValue(mu.Key, get.Params[1]) && resolve(mu.Value) == v && dominates(mu, r) {
@@ -192,7 +310,7 @@ func rulesC10(c *Ctx) {
 		c.Check(stored, "R2", con, r.Pos(), "stored in the instance table under the requested name before it is returned",
 			"a factory-built instance is returned without being memoised under its name — the factory runs again and later requests get a different instance")
 	}
-	c.Floor("R2", n2, 2)
+	c.Floor("R2", n2, 1)
 
 	// ---- R3 lookup order -----------------------------------------------------------
 	var lks []*ssa.Lookup
@@ -209,21 +327,21 @@ func rulesC10(c *Ctx) {
 		}
 		return nil
 	}
-	li, lf, ld := find("instances"), find("factories"), find("defaultFactories")
+	li, lf, ld := find(ro.inst), find(ro.fact), find(ro.defFact)
 	if li == nil || lf == nil || ld == nil {
 		c.Bad("R3", "table lookups in Get", get.Pos(), "cannot find the comma-ok lookups of the requested name in instances / factories / defaultFactories; cannot certify the precedence")
 	} else {
 		ok := dominates(li, lf) && dominates(lf, ld) &&
-			tableMiss(get, facts, lf.Block(), "instances", get.Params[1]) &&
-			tableMiss(get, facts, ld.Block(), "instances", get.Params[1]) &&
-			tableMiss(get, facts, ld.Block(), "factories", get.Params[1])
+			tableMiss(get, facts, lf.Block(), ro.inst, get.Params[1]) &&
+			tableMiss(get, facts, ld.Block(), ro.inst, get.Params[1]) &&
+			tableMiss(get, facts, ld.Block(), ro.fact, get.Params[1])
 		c.Check(ok, "R3", "table lookups in Get", li.Pos(), "instances, then factories on its miss edge, then default factories on both miss edges",
 			"the tables are not consulted in the order instances > factories > default factories on miss edges — a default can shadow an explicit definition or an instance is rebuilt")
 	}
 
 	// ---- R4 frozen at first use ---------------------------------------------------------
 	blockCalls := CallsTo(get, mq(depPkg, "Provider", "Block"))
-	tables := map[string]bool{"instances": true, "factories": true, "defaultFactories": true, "defaultInstances": true, "injectors": true}
+	tables := map[string]bool{ro.inst: true, ro.fact: true, ro.defFact: true, ro.defInst: true, ro.inj: true}
 	if len(blockCalls) == 0 {
 		c.Bad("R4", "Get freezes before reading", get.Pos(), "Get does not call Block — definitions stay open after the first resolution")
 	} else {
@@ -236,43 +354,27 @@ func rulesC10(c *Ctx) {
 				}
 			}
 		})
-		// Block itself sets blocked on every path
-		blockedSet := len(MustPass(block, nil, func(in ssa.Instruction) bool {
+		// Block leaves the provider frozen on every path: paths on which the flag
+		// was found already set are fine, every other path stores true
+		bf := factsFor(block)
+		isFreeze := func(in ssa.Instruction) bool {
 			if st, ok := in.(*ssa.Store); ok {
-				if fa, ok := st.Addr.(*ssa.FieldAddr); ok && fieldName(fa) == "dependency.Provider.blocked" {
+				if fa, ok := st.Addr.(*ssa.FieldAddr); ok && fieldName(fa) == "dependency.Provider."+ro.blocked {
 					if b, ok := constBool(st.Val); ok && b {
 						return true
 					}
 				}
 			}
 			return false
-		})) == 0
-		if !blockedSet {
-			// the early return of Block is taken only when already blocked
-			bf := factsFor(block)
-			all := true
-			for _, e := range MustPass(block, nil, func(in ssa.Instruction) bool {
-				if st, ok := in.(*ssa.Store); ok {
-					if fa, ok := st.Addr.(*ssa.FieldAddr); ok && fieldName(fa) == "dependency.Provider.blocked" {
-						if b, ok := constBool(st.Val); ok && b {
-							return true
-						}
-					}
-				}
-				return false
-			}) {
-				okExit := false
-				for k := range bf.At(e.Instr.Block()) {
-					if n, _ := fieldLoadName(k.v); n == "blocked" && k.pol {
-						okExit = true
-					}
-				}
-				if !okExit {
-					all = false
+		}
+		blockedSet := len(MustPassF(block, nil, isFreeze, func(st int, pred, succ *ssa.BasicBlock) bool {
+			for k := range factsOnEdge(bf, pred, succ) {
+				if n, _ := fieldLoadName(k.v); n == ro.blocked && k.pol {
+					return false // already frozen on this edge
 				}
 			}
-			blockedSet = all
-		}
+			return true
+		})) == 0
 		if bad == "" && !blockedSet {
 			bad = "Block can return without the frozen flag being set"
 		}
@@ -311,7 +413,7 @@ func rulesC10(c *Ctx) {
 			}
 			guarded := false
 			for k := range ff.At(b) {
-				if n, _ := fieldLoadName(k.v); n == "blocked" && !k.pol {
+				if n, _ := fieldLoadName(k.v); n == ro.blocked && !k.pol {
 					guarded = true
 				}
 			}
@@ -325,7 +427,7 @@ func rulesC10(c *Ctx) {
 
 	// ---- R5 explicit beats default ------------------------------------------------------------
 	n5 := 0
-	defTables := map[string]bool{"defaultInstances": true, "defaultFactories": true}
+	defTables := map[string]bool{ro.defInst: true, ro.defFact: true}
 	for _, f := range []*ssa.Function{block, get} {
 		ff := factsFor(f)
 		eachInstr(f, func(b *ssa.BasicBlock, _ int, in ssa.Instruction) {
@@ -333,7 +435,7 @@ func rulesC10(c *Ctx) {
 			if !ok {
 				return
 			}
-			if n, _ := fieldLoadName(mu.Map); n != "instances" {
+			if n, _ := fieldLoadName(mu.Map); n != ro.inst {
 				return
 			}
 			src := dependsOnField(mu.Value, defTables, 0, map[ssa.Value]bool{})
@@ -341,9 +443,10 @@ func rulesC10(c *Ctx) {
 				return
 			}
 			n5++
-			con := fmt.Sprintf("store of a %s value into instances in %s", src, fname(f))
-			mi := tableMiss(f, ff, b, "instances", mu.Key)
-			mf := tableMiss(f, ff, b, "factories", mu.Key)
+			con := fmt.Sprintf("store of a default-table value into the instance table in %s", fname(f))
+			_ = src
+			mi := tableMiss(f, ff, b, ro.inst, mu.Key)
+			mf := tableMiss(f, ff, b, ro.fact, mu.Key)
 			why := ""
 			if !mi {
 				why = "no miss of the name in the explicit instance table is established"
@@ -362,10 +465,10 @@ func rulesC10(c *Ctx) {
 		method, table string
 		misses        []string
 	}{
-		{"Set", "instances", []string{"instances", "factories"}},
-		{"SetDefault", "defaultInstances", []string{"defaultInstances", "defaultFactories"}},
-		{"AddFactory", "factories", []string{"factories"}},
-		{"AddDefaultFactory", "defaultFactories", []string{"defaultFactories", "factories"}},
+		{"Set", ro.inst, []string{ro.inst, ro.fact}},
+		{"SetDefault", ro.defInst, []string{ro.defInst, ro.defFact}},
+		{"AddFactory", ro.fact, []string{ro.fact}},
+		{"AddDefaultFactory", ro.defFact, []string{ro.defFact, ro.fact}},
 	}
 	n6 := 0
 	for _, row := range rows {
@@ -391,12 +494,12 @@ func rulesC10(c *Ctx) {
 					missing = append(missing, t)
 				}
 			}
-			c.Check(len(missing) == 0, "R6", fmt.Sprintf("dependency.(*Provider).%s writes %s", row.method, row.table), mu.Pos(),
-				"only on the miss edge of "+strings.Join(row.misses, " and "),
+			c.Check(len(missing) == 0, "R6", fmt.Sprintf("dependency.(*Provider).%s writes its table", row.method), mu.Pos(),
+				"only on the miss edge of the tables that must not already define the name",
 				"the write is not confined to a miss in "+strings.Join(missing, ", ")+" — a duplicate definition silently replaces an earlier one (or a default shadows an explicit definition)")
 		})
 		if !found {
-			c.Bad("R6", fmt.Sprintf("dependency.(*Provider).%s writes %s", row.method, row.table), f.Pos(), "the definition method no longer writes its table; cannot certify")
+			c.Bad("R6", fmt.Sprintf("dependency.(*Provider).%s writes its table", row.method), f.Pos(), "the definition method no longer writes its table; cannot certify")
 		}
 	}
 	c.Floor("R6", n6, 4)
@@ -405,15 +508,15 @@ func rulesC10(c *Ctx) {
 	ruleInjectTo(c, inject, get)
 
 	// ---- R8 the cycle scan covers the whole stack ------------------------------------------------------
-	isCalled := c.P.Func(depPkg, "Provider", "isCalled")
+	isCalled := ro.scan
 	if isCalled == nil {
-		c.Bad("R8", "dependency.(*Provider).isCalled", 0, "anchor not found")
+		c.Bad("R8", "cycle scan of the resolution stack", 0, "no private bool function called by Get scans the resolution stack; cannot certify")
 	} else {
-		why := loopCoversWhole(isCalled, "callstack")
-		c.Check(why == "", "R8", "cycle scan in dependency.(*Provider).isCalled", isCalled.Pos(), "the scan visits every element of the resolution stack",
+		why := loopCoversWhole(isCalled, ro.stack)
+		c.Check(why == "", "R8", "cycle scan of the resolution stack", isCalled.Pos(), "the scan visits every element of the resolution stack",
 			why+" — a cycle closing on the unvisited slot re-enters its factory")
 		// Get consults it before any factory runs
-		ic := CallsTo(get, mq(depPkg, "Provider", "isCalled"))
+		ic := CallsTo(get, qualName(isCalled))
 		okc := len(ic) > 0
 		if okc {
 			for _, ci := range Calls(get) {
@@ -573,6 +676,7 @@ func loopCarried(v ssa.Value) bool {
 }
 
 func ruleInjectTo(c *Ctx, inject, get *ssa.Function) {
+
 	facts := factsFor(inject)
 	gets := CallsTo(inject, qualName(get))
 	if len(gets) == 0 {
@@ -606,10 +710,17 @@ func ruleInjectTo(c *Ctx, inject, get *ssa.Function) {
 		// the branch on the optional flag, inside the err != nil region
 		eachInstr(inject, func(b *ssa.BasicBlock, _ int, in ssa.Instruction) {
 			iff, ok := in.(*ssa.If)
-			if !ok || !facts.KnownNil(b, errs[0], false) {
+			if !ok {
 				return
 			}
-			if _, isBin := iff.Cond.(*ssa.BinOp); isBin {
+			// an outgoing edge on which the error is known non-nil, decided (also) by the marker
+			onEdge := facts.KnownNil(b, errs[0], false)
+			for _, sb := range b.Succs {
+				if knownNilIn(factsOnEdge(facts, b, sb), errs[0], false) {
+					onEdge = true
+				}
+			}
+			if !onEdge || !dependsOnMarker(facts, iff.Cond, 0, map[ssa.Value]bool{}) {
 				return
 			}
 			optCond = iff.Cond
@@ -646,5 +757,40 @@ func ruleInjectTo(c *Ctx, inject, get *ssa.Function) {
 			}
 		}
 	}
-	c.Floor("R7", n+inj, 3)
+	c.Floor("R7", n+inj, 2)
+}
+
+// dependsOnMarker: v depends, by data or by the branch that selects a phi
+// edge, on a test of the '?' optional marker of the tag.
+func dependsOnMarker(facts *Facts, v ssa.Value, depth int, seen map[ssa.Value]bool) bool {
+	if v == nil || seen[v] || depth > 10 {
+		return false
+	}
+	seen[v] = true
+	if s, ok := constString(v); ok && s == "?" {
+		return true
+	}
+	if p, ok := v.(*ssa.Phi); ok {
+		for i, e := range p.Edges {
+			if dependsOnMarker(facts, e, depth+1, seen) {
+				return true
+			}
+			for k := range factsOnEdge(facts, p.Block().Preds[i], p.Block()) {
+				if dependsOnMarker(facts, k.v, depth+1, seen) {
+					return true
+				}
+			}
+		}
+		return false
+	}
+	in, ok := v.(ssa.Instruction)
+	if !ok {
+		return false
+	}
+	for _, op := range in.Operands(nil) {
+		if op != nil && *op != nil && dependsOnMarker(facts, *op, depth+1, seen) {
+			return true
+		}
+	}
+	return false
 }
